@@ -11,6 +11,11 @@ fn get_text_value(element: &mut SvgElement) -> String {
     text_string(&text_value)
 }
 
+#[cfg(feature = "verif-hooks")]
+pub fn verif_text_string(text_value: &str) -> String {
+    text_string(text_value)
+}
+
 /// Convert unescaped r"\n" into newline characters for multi-line text
 fn text_string(text_value: &str) -> String {
     let mut result = String::new();
